@@ -24,6 +24,9 @@ class PushedAuthorization(Authorization):
         # self.pre_construct.append(self._pre_construct)
         self.post_parse_request.append(self._post_parse_request)
         self.ttl = kwargs.get("ttl", 3600)
+        # RFC 9126: the issuer identifier is what a client should use as audience of a
+        # client assertion, it must be accepted beside the URL of this endpoint
+        self.allowed_targets.append("")
 
     def process_request(self, request: Optional[Union[Message, str]] = None, **kwargs):
         """
